@@ -347,7 +347,7 @@ theorem rangeArith_bounds {op : Num → Num → Res Num} {a b : Value} {ra rb : 
     (h1l : ra.numLower = .ok (some l1)) (h1u : ra.numUpper = .ok (some h1))
     (h2l : rb.numLower = .ok (some l2)) (h2u : rb.numUpper = .ok (some h2)) :
     rangeArith op a b = .ok (numRangeResult (loOf (newMinOf op l1 h1 l2 h2)) (hiOf (newMaxOf op l1 h1 l2 h2))) := by
-  unfold rangeArith
+  unfold rangeArith rangeArithC
   simp only [hra, hrb, h1l, h1u, h2l, h2u, Res.bind_ok]
   rfl
 
@@ -473,7 +473,7 @@ theorem rangeArith_dyn {op : Num → Num → Res Num} {a b : Value} (ha : a.isMa
   obtain ⟨a2, ha2, da2⟩ := upA
   obtain ⟨b1, hb1, db1⟩ := lowB
   obtain ⟨b2, hb2, db2⟩ := upB
-  unfold rangeArith
+  unfold rangeArith rangeArithC
   simp only [hra, hrb, ha1, ha2, hb1, hb2, Res.bind_ok]
   rcases hd with h | h
   · rw [da1 h, da2 h]; rfl
